@@ -683,33 +683,78 @@ impl<'a> VisitMut for HofPass<'a> {
                 }
             }
         }
-        // R-RETAIN (dashmap): M.retain(|&k, v| B): every entry visited exactly once, in an unspecified order
+        // R-RETAIN: M.retain(|k, v| B): every entry visited exactly once (dashmap: unspecified order; BTreeMap: key order)
         if let Expr::MethodCall(rt) = e {
             if rt.method == "retain" && rt.args.len() == 1 {
                 if let Expr::Closure(cl) = &rt.args[0] {
                     if cl.inputs.len() == 2 {
                         let m = &rt.receiver;
-                        let kpat = match &cl.inputs[0] {
-                            syn::Pat::Reference(r) => (*r.pat).clone(),
-                            _ => die("unsupported construct: R-RETAIN expects `|&k, v|`"),
-                        };
                         let vpat = &cl.inputs[1];
+                        let body = &cl.body;
+                        let value_unused = matches!(vpat, syn::Pat::Wild(_));
+                        let new: Expr = match &cl.inputs[0] {
+                            syn::Pat::Reference(r) if !value_unused => {
+                                let kpat = &r.pat;
+                                parse_quote! {
+                                    {
+                                        let __fjx_keys = #m.hof_keys();
+                                        let mut __fjx_i: usize = 0;
+                                        while __fjx_i < __fjx_keys.len() {
+                                            let #kpat = __fjx_keys[__fjx_i];
+                                            let mut __fjx_v = #m.hof_get_present(#kpat);
+                                            let __fjx_keep = { let #vpat = &mut __fjx_v; #body };
+                                            #m.hof_retain_set(#kpat, __fjx_v, __fjx_keep);
+                                            __fjx_i += 1;
+                                        }
+                                    }
+                                }
+                            }
+                            kpat if value_unused => {
+                                parse_quote! {
+                                    {
+                                        let __fjx_keys = #m.hof_keys();
+                                        let mut __fjx_i: usize = 0;
+                                        while __fjx_i < __fjx_keys.len() {
+                                            let __fjx_keep = { let #kpat = &__fjx_keys[__fjx_i]; #body };
+                                            #m.hof_retain_key(__fjx_keys[__fjx_i], __fjx_keep);
+                                            __fjx_i += 1;
+                                        }
+                                    }
+                                }
+                            }
+                            _ => die("unsupported construct: R-RETAIN expects `|&k, v|` or `|k, _|`"),
+                        };
+                        *e = new;
+                        self.log.push("R-RETAIN retain(closure) unfolded: one visit per entry".into());
+                    }
+                }
+            }
+        }
+        // R-ANY: X.range(R).any(|p| B): true iff B holds for some entry of the range (B is evaluated until the first hit)
+        if let Expr::MethodCall(an) = e {
+            if an.method == "any" && an.args.len() == 1 {
+                if let (Expr::MethodCall(rg), Expr::Closure(cl)) = (&*an.receiver, &an.args[0]) {
+                    if rg.method == "range" && rg.args.len() == 1 && cl.inputs.len() == 1 {
+                        let m = &rg.receiver;
+                        let r = &rg.args[0];
+                        let pat = &cl.inputs[0];
                         let body = &cl.body;
                         let new: Expr = parse_quote! {
                             {
-                                let __fjx_keys = #m.hof_keys();
-                                let mut __fjx_i: usize = 0;
-                                while __fjx_i < __fjx_keys.len() {
-                                    let #kpat = __fjx_keys[__fjx_i];
-                                    let mut __fjx_v = #m.hof_get_present(#kpat);
-                                    let __fjx_keep = { let #vpat = &mut __fjx_v; #body };
-                                    #m.hof_retain_set(#kpat, __fjx_v, __fjx_keep);
-                                    __fjx_i += 1;
+                                let __fjx_r = #r;
+                                let __fjx_len = #m.hof_range_len(&__fjx_r);
+                                let mut __fjx_found = false;
+                                let mut __fjx_j: usize = 0;
+                                while __fjx_j < __fjx_len && !__fjx_found {
+                                    let #pat = #m.hof_range_at(&__fjx_r, __fjx_j);
+                                    if #body { __fjx_found = true; }
+                                    __fjx_j += 1;
                                 }
+                                __fjx_found
                             }
                         };
                         *e = new;
-                        self.log.push("R-RETAIN retain(|&k, v| b) unfolded: one visit per entry, unspecified order".into());
+                        self.log.push("R-ANY range(r).any(closure) unfolded into a search loop".into());
                     }
                 }
             }
